@@ -17,7 +17,7 @@ import (
 	"verif/harness/internal/ref/curve"
 )
 
-const ruleC14 = "secret scalars / hashes / r / s drawn from {random 256-bit, 0,1,2, n-2..n+1, n/2-1..n/2+1, 2^255-1..2^255+1, p-1..p+1, p-n, 2^256-1, small ints}; 33-byte public keys from {valid, negated, wrong prefix byte, x>=p, x off curve, random}; signatures = reference-signed with chosen nonce, then mutated (r/s replaced by edges, recid 0..255, s negated); every answer compared with the textbook math/big implementation; non-trivial = an edge-class value is involved or the case is a mutated/invalid input; distinct by input bytes"
+const ruleC14 = "secret scalars / hashes / r / s drawn from {random 256-bit, 0,1,2, n-2..n+1, n/2-1..n/2+1, 2^255-1..2^255+1, p-1..p+1, p-n, 2^256-1, small ints}; 33-byte public keys from {valid, negated, wrong prefix byte, x>=p, x off curve, random}; signatures = reference-signed with chosen nonce, then mutated (r/s replaced by edges or by tiny values below p-n with recovery ids 0-3, recid 0..255, s negated); every answer compared with the textbook math/big implementation; non-trivial = an edge-class value is involved or the case is a mutated/invalid input; distinct by input bytes"
 
 func isEdge(x *big.Int) bool {
 	for _, e := range sEdges {
@@ -294,7 +294,15 @@ func genSigCase(t *rapid.T) (pub []byte, m *big.Int, sig cipher.Sig, class strin
 			if ss.Cmp(curve.HalfN) > 0 {
 				ss = new(big.Int).Sub(curve.N, ss)
 			}
-			recid = rapid.IntRange(0, 1).Draw(t, "tinyrecid")
+			// (recovery ids 2 and 3 say that the x coordinate is r + n; that is below p only for r < p - n, about
+			// 2^128 - exactly the tiny values)
+			recid = rapid.IntRange(0, 3).Draw(t, "tinyrecid")
+			if recid >= 2 && rapid.Bool().Draw(t, "tinywide") {
+				rr = new(big.Int).SetBytes(rapid.SliceOfN(rapid.Byte(), 16, 16).Draw(t, "tinyr128"))
+				if rr.Sign() == 0 {
+					rr = big.NewInt(1)
+				}
+			}
 			class = "r_tiny"
 		}
 	case 5:
